@@ -69,7 +69,7 @@ def run(tier):
                 if h not in seen:
                     seen.add(h)
                     ops = json.loads(line[2:])
-                    if any(o["op"] in ("accept", "accept.ret", "dropserver") for o in ops):
+                    if any(o["op"] in ("accept", "accept.ret", "accept.fail", "dropserver") for o in ops):
                         behs.append({"ops": ops})
         limit = 2500 if tier == "quick" else 40000
         if len(behs) > limit:
